@@ -1987,7 +1987,7 @@ def probes_for(pid):
     for kind in ("hoist-call", "split-unpack", "split-assert", "inline-local", "swap-independent", "dedent-else", "nest-after-return", "extract-tail"):
         out.append({"pid": pid, "name": "probe:" + kind, "probe": ("statements", kind), "expect": None})
     # signature rewrites: the parameters of every internal method (unique name, only ever called) rotated / renamed with all call sites
-    for kind in ("reorder-params", "rename-params"):
+    for kind in ("reorder-params", "rename-params", "rename-methods"):
         out.append({"pid": pid, "name": "probe:" + kind, "probe": ("signatures", kind), "expect": None})
     for p in probes.source_files(REPO):
         rel = os.path.relpath(p, REPO)
